@@ -62,7 +62,7 @@ class C27(Monitor):
 
     def _limits(self, w, e, s):
         """over-long CONTINUATION chains and oversize header lists must be refused"""
-        if s.snap['closed'] or len(s.units) != 1 or s.quirk or (not s.ok and s.trailing >= 9):
+        if s.snap['closed'] or not s.exact or s.quirk:
             return
         f = s.units[0]
         if f.type not in (C.HEADERS, C.PUSH_PROMISE) or f.block_frames is None or f.bad:
